@@ -207,4 +207,807 @@ theorem MeshOKx_remove {s s' : State} {p t : Nat} {U : List Nat}
       · exact Or.inl ⟨hqp, hU⟩
     · exact Or.inr ⟨⟨pd, by rw [hp]; exact hpd, hg, htt⟩, by rw [he]; exact hex⟩
 
+
+/-! ## ops that only touch the peer table -/
+
+theorem Inv_of_peerMono {s s' : State} (h : Inv s) (hm : s'.mesh = s.mesh) (hf : s'.fanout = s.fanout)
+    (he : s'.explicit = s.explicit) (hp : ∀ t q, PeerOK s t q → PeerOK s' t q) : Inv s' := by
+  constructor
+  · intro t m hmt q hq
+    rw [hm] at hmt
+    obtain ⟨h1, h2⟩ := h.mesh t m hmt q hq
+    exact ⟨hp t q h1, by rw [he]; exact h2⟩
+  · intro t f hft q hq
+    rw [hf] at hft
+    exact hp t q (h.fan t f hft q hq)
+
+theorem inv_connect (s : State) (p c : Nat) (ob : Bool) (h : Inv s) : Inv (connect s p c ob) := by
+  refine Inv_of_peerMono h ?_ ?_ ?_ ?_ <;> first | rfl | skip
+  intro t q ⟨pd, hpd, hg, ht⟩
+  by_cases hq : q = p
+  · subst hq
+    refine ⟨{ pd with conns := pd.conns ++ [c] }, ?_, hg, ht⟩
+    simp [connect, hpd, setF_same]
+  · exact ⟨pd, by simp [connect, setF_other _ _ _ _ hq, hpd], hg, ht⟩
+
+theorem inv_setKind (s : State) (p : Nat) (g : Bool) (h : Inv s) : Inv (setKind s p g) := by
+  unfold setKind
+  cases hp : s.peers p with
+  | none => exact h
+  | some pd =>
+    simp only
+    split
+    · exact h
+    · rename_i hgos
+      refine Inv_of_peerMono h ?_ ?_ ?_ ?_ <;> first | rfl | skip
+      intro t q ⟨pd', hpd', hg, ht⟩
+      by_cases hq : q = p
+      · subst hq
+        rw [hp] at hpd'
+        cases hpd'
+        exact absurd hg hgos
+      · exact ⟨pd', by simp [setF_other _ _ _ _ hq, hpd'], hg, ht⟩
+
+theorem inv_setTopics_grow (s : State) (p : Nat) (f : List Nat → List Nat) (hf : ∀ l t, t ∈ l → t ∈ f l)
+    (h : Inv s) : Inv (setTopics s p f) := by
+  unfold setTopics
+  cases hp : s.peers p with
+  | none => exact h
+  | some pd =>
+    simp only
+    refine Inv_of_peerMono h ?_ ?_ ?_ ?_ <;> first | rfl | skip
+    intro t q ⟨pd', hpd', hg, ht⟩
+    by_cases hq : q = p
+    · subst hq
+      rw [hp] at hpd'
+      cases hpd'
+      exact ⟨{ pd with topics := f pd.topics }, by simp [setF_same], hg, hf _ _ ht⟩
+    · exact ⟨pd', by simp [setF_other _ _ _ _ hq, hpd'], hg, ht⟩
+
+theorem inv_addExplicit (s : State) (p : Nat) (h : Inv s) (hp : ¬ InMeshP s p) : Inv (addExplicit s p) := by
+  constructor
+  · intro t m hmt q hq
+    obtain ⟨h1, h2⟩ := h.mesh t m hmt q hq
+    refine ⟨h1, ?_⟩
+    simp only [addExplicit]
+    intro hin
+    rcases mem_ins.1 hin with h' | h'
+    · exact h2 h'
+    · subst h'; exact hp ⟨t, m, hmt, hq⟩
+  · exact h.fan
+
+theorem inv_disconnect (s : State) (p c : Nat) (h : Inv s) : Inv (disconnect s p c).1 := by
+  unfold disconnect
+  cases hp : s.peers p with
+  | none => exact h
+  | some pd =>
+    simp only
+    split
+    · -- other connections remain
+      apply Inv.core _ (sameCore_notify _ _)
+      refine Inv_of_peerMono h ?_ ?_ ?_ ?_ <;> first | rfl | skip
+      intro t q ⟨pd', hpd', hg, ht⟩
+      by_cases hq : q = p
+      · subst hq
+        rw [hp] at hpd'
+        cases hpd'
+        exact ⟨{ pd with conns := eraseFirst pd.conns c }, by simp [setF_same], hg, ht⟩
+      · exact ⟨pd', by simp [setF_other _ _ _ _ hq, hpd'], hg, ht⟩
+    · -- last connection
+      constructor
+      · intro t m hmt q hq
+        simp only at hmt
+        have key : ∃ m0, s.mesh t = some m0 ∧ q ∈ m0 ∧ q ≠ p := by
+          split at hmt
+          · cases hm0 : s.mesh t with
+            | none => simp [hm0] at hmt
+            | some m0 =>
+              simp only [hm0, Option.map_some, Option.some.injEq] at hmt
+              subst hmt
+              obtain ⟨a, b⟩ := mem_del.1 hq
+              exact ⟨m0, rfl, a, b⟩
+          · rename_i hnt
+            refine ⟨m, hmt, hq, ?_⟩
+            rintro rfl
+            obtain ⟨⟨pd', hpd', _, ht⟩, _⟩ := h.mesh t m hmt q hq
+            rw [hp] at hpd'; cases hpd'
+            exact hnt (by simpa using ht)
+        obtain ⟨m0, hm0, hq0, hne⟩ := key
+        obtain ⟨⟨pd', hpd', hg, ht⟩, hex⟩ := h.mesh t m0 hm0 q hq0
+        exact ⟨⟨pd', by simp [setF_other _ _ _ _ hne, hpd'], hg, ht⟩, hex⟩
+      · intro t f hft q hq
+        simp only at hft
+        have key : ∃ f0, s.fanout t = some f0 ∧ q ∈ f0 ∧ q ≠ p := by
+          split at hft
+          · cases hf0 : s.fanout t with
+            | none => simp [hf0] at hft
+            | some f0 =>
+              simp only [hf0, Option.map_some, Option.some.injEq] at hft
+              subst hft
+              obtain ⟨a, b⟩ := mem_del.1 hq
+              exact ⟨f0, rfl, a, b⟩
+          · rename_i hnt
+            refine ⟨f, hft, hq, ?_⟩
+            rintro rfl
+            obtain ⟨pd', hpd', _, ht⟩ := h.fan t f hft q hq
+            rw [hp] at hpd'; cases hpd'
+            exact hnt (by simpa using ht)
+        obtain ⟨f0, hf0, hq0, hne⟩ := key
+        obtain ⟨pd', hpd', hg, ht⟩ := h.fan t f0 hf0 q hq0
+        exact ⟨pd', by simp [setF_other _ _ _ _ hne, hpd'], hg, ht⟩
+
+/-! ## PRUNE received, unsubscribe, publish -/
+
+theorem inv_removePeerFromMesh (s : State) (now p t : Nat) (b : Option Nat) (al : Bool) (h : Inv s) :
+    Inv (removePeerFromMesh s now p t b al).1 := by
+  obtain ⟨c1, c2, c3, _, c5⟩ := removePeerFromMesh_core s now p t b al
+  constructor
+  · apply (meshOK_iff_x _ p).2
+    apply MeshOKx_remove (s := s) (t := t) _ c1 c2 c5
+    intro t' m hm q hq
+    exact Or.inr (h.mesh t' m hm q hq)
+  · intro t' f hf q hq
+    rw [c3] at hf
+    obtain ⟨pd, hpd, hg, ht⟩ := h.fan t' f hf q hq
+    exact ⟨pd, by rw [c1]; exact hpd, hg, ht⟩
+
+theorem inv_pruneLoop (now p : Nat) : ∀ (l : List (Nat × Option Nat)) (s : State) (ns : List Notif),
+    Inv s → Inv (pruneLoop now p l s ns).1 := by
+  intro l
+  induction l with
+  | nil => intro s ns h; exact h
+  | cons e es ih =>
+    intro s ns h
+    obtain ⟨t, b⟩ := e
+    simp only [pruneLoop]
+    exact ih _ _ (inv_removePeerFromMesh s now p t b true h)
+
+theorem inv_recvPrune (s : State) (now p : Nat) (l : List (Nat × Option Nat)) (h : Inv s) :
+    Inv (recvPrune s now p l).1 := by
+  simp only [recvPrune]
+  exact inv_pruneLoop now p l s [] h
+
+theorem sameCore_leaveLoop (now t secs : Nat) : ∀ (l : List Nat) (s : State) (ns : List Notif),
+    SameCore s (leaveLoop now t secs l s ns).1 := by
+  intro l
+  induction l with
+  | nil => intro s ns; exact SameCore.refl s
+  | cons p ps ih =>
+    intro s ns
+    simp only [leaveLoop]
+    exact ((sameCore_updateBackoff s now t p secs).trans (sameCore_notify _ _)).trans (ih _ _)
+
+theorem inv_unsubscribe (s : State) (now t : Nat) (h : Inv s) : Inv (unsubscribe s now t).1 := by
+  unfold unsubscribe
+  cases hm : s.mesh t with
+  | none => exact h
+  | some m =>
+    simp only
+    apply Inv.core _ (sameCore_leaveLoop now t s.cfg.unsubBackoff m _ [])
+    constructor
+    · intro t' m' hm' q hq
+      simp only at hm'
+      by_cases ht : t' = t
+      · subst ht; simp [setF_same] at hm'
+      · rw [setF_other _ _ _ _ ht] at hm'
+        exact h.mesh t' m' hm' q hq
+    · exact h.fan
+
+theorem fanEligible_ok {s : State} {t p : Nat} (h : fanEligible s t p = true) : PeerOK s t p := by
+  unfold fanEligible at h
+  cases hp : s.peers p with
+  | none => simp [hp] at h
+  | some pd =>
+    simp only [hp, Bool.and_eq_true, List.contains_eq_mem, decide_eq_true_eq] at h
+    exact ⟨pd, hp, h.2, h.1⟩
+
+theorem validFan_ok {s : State} {t : Nat} {old : Option (List Nat)} {n : List Nat} {mc : Bool}
+    (h : validFan s t old (some n) mc = true) (hold : ∀ f, old = some f → ∀ p ∈ f, PeerOK s t p) :
+    ∀ p ∈ n, PeerOK s t p := by
+  simp only [validFan, Bool.and_eq_true, List.all_eq_true, Bool.or_eq_true, List.contains_eq_mem,
+    decide_eq_true_eq] at h
+  intro p hp
+  rcases h.2 p hp with h' | h'
+  · cases old with
+    | none => simp at h'
+    | some f => exact hold f rfl p (by simpa using h')
+  · exact fanEligible_ok h'
+
+theorem inv_publish (s : State) (t : Nat) (new : Option (List Nat)) (h : Inv s) : Inv (publish s t new).1 := by
+  unfold publish
+  split
+  · exact h
+  · split
+    · rename_i hv
+      constructor
+      · exact h.mesh
+      · intro t' f hf q hq
+        simp only at hf
+        by_cases ht : t' = t
+        · subst ht
+          rw [setF_same] at hf
+          subst hf
+          exact validFan_ok hv (fun f0 hf0 => h.fan t' f0 hf0) q hq
+        · rw [setF_other _ _ _ _ ht] at hf
+          exact h.fan t' f hf q hq
+    · exact h
+
+
+/-! ## generic steps on the relaxed invariant -/
+
+theorem MeshOKx_peerChange {s s' : State} {p : Nat} {U U' : List Nat} (h : MeshOKx s p U)
+    (hm : s'.mesh = s.mesh) (he : s'.explicit = s.explicit)
+    (hp : ∀ t q, PeerOK s t q → (q = p ∧ t ∈ U') ∨ PeerOK s' t q) (hU : ∀ t ∈ U, t ∈ U') : MeshOKx s' p U' := by
+  intro t m hmt q hq
+  rw [hm] at hmt
+  rcases h t m hmt q hq with ⟨h1, h2⟩ | ⟨h1, h2⟩
+  · exact Or.inl ⟨h1, hU t h2⟩
+  · rcases hp t q h1 with h' | h'
+    · exact Or.inl h'
+    · exact Or.inr ⟨h', by rw [he]; exact h2⟩
+
+theorem FanOKx_peerChange {s s' : State} {p : Nat} {U U' : List Nat} (h : FanOKx s p U)
+    (hf : s'.fanout = s.fanout)
+    (hp : ∀ t q, PeerOK s t q → (q = p ∧ t ∈ U') ∨ PeerOK s' t q) (hU : ∀ t ∈ U, t ∈ U') : FanOKx s' p U' := by
+  intro t m hmt q hq
+  rw [hf] at hmt
+  rcases h t m hmt q hq with ⟨h1, h2⟩ | h1
+  · exact Or.inl ⟨h1, hU t h2⟩
+  · exact hp t q h1
+
+/-- adding an eligible peer to one mesh -/
+theorem MeshOKx_add {s : State} {p q t : Nat} {U : List Nat} {m : List Nat} (h : MeshOKx s p U)
+    (hq : PeerOK s t q) (he : q ∉ s.explicit) (hm : s.mesh t = some m) :
+    MeshOKx { s with mesh := setF s.mesh t (some (m ++ [q])) } p U := by
+  intro t' m' hmt r hr
+  simp only at hmt
+  by_cases ht : t' = t
+  · subst ht
+    rw [setF_same] at hmt
+    cases hmt
+    rcases List.mem_append.1 hr with hr | hr
+    · exact h t' m hm r hr
+    · simp only [List.mem_singleton] at hr
+      subst hr
+      exact Or.inr ⟨hq, he⟩
+  · rw [setF_other _ _ _ _ ht] at hmt
+    exact h t' m' hmt r hr
+
+theorem peerOK_setTopics {s : State} {p : Nat} {f : List Nat → List Nat} {t q : Nat} (h : PeerOK s t q)
+    (hf : q = p → ∀ l, t ∈ l → t ∈ f l) : PeerOK (setTopics s p f) t q := by
+  obtain ⟨pd, hpd, hg, ht⟩ := h
+  unfold setTopics
+  cases hp : s.peers p with
+  | none => exact ⟨pd, hpd, hg, ht⟩
+  | some pd0 =>
+    simp only
+    by_cases hq : q = p
+    · subst hq
+      rw [hp] at hpd
+      cases hpd
+      exact ⟨{ pd with topics := f pd.topics }, by simp [setF_same], hg, hf rfl _ ht⟩
+    · exact ⟨pd, by simp [setF_other _ _ _ _ hq, hpd], hg, ht⟩
+
+theorem setTopics_mesh (s : State) (p : Nat) (f : List Nat → List Nat) :
+    (setTopics s p f).mesh = s.mesh ∧ (setTopics s p f).explicit = s.explicit ∧ (setTopics s p f).fanout = s.fanout := by
+  unfold setTopics
+  cases s.peers p <;> exact ⟨rfl, rfl, rfl⟩
+
+/-! ## GRAFT received -/
+
+theorem graftTopic_spec (s : State) (now : Nat) (bz : Bool) (p t : Nat) (U : List Nat)
+    (h : MeshOKx s p U) (hp : PeerOK s t p) (he : p ∉ s.explicit) :
+    let s' := (graftTopic s now bz p t).1
+    MeshOKx s' p U ∧ s'.peers = s.peers ∧ s'.explicit = s.explicit ∧ s'.fanout = s.fanout := by
+  unfold graftTopic
+  cases hm : s.mesh t with
+  | none => exact ⟨h, rfl, rfl, rfl⟩
+  | some m =>
+    simp only
+    split
+    · exact ⟨h, rfl, rfl, rfl⟩
+    · split
+      · exact ⟨h, rfl, rfl, rfl⟩
+      · split
+        · exact ⟨h, rfl, rfl, rfl⟩
+        · split
+          · exact ⟨h, rfl, rfl, rfl⟩
+          · refine ⟨?_, rfl, rfl, rfl⟩
+            exact (MeshOKx_add h hp he hm).core (sameCore_notify _ _)
+
+theorem graftLoop_spec (now : Nat) (bz : Bool) (p : Nat) (U : List Nat) :
+    ∀ (l : List Nat) (s : State) (pr : List Nat) (ns : List Notif),
+      MeshOKx s p U → (∀ t ∈ l, PeerOK s t p) → p ∉ s.explicit →
+      let s' := (graftLoop now bz p l s pr ns).1
+      MeshOKx s' p U ∧ s'.peers = s.peers ∧ s'.explicit = s.explicit ∧ s'.fanout = s.fanout := by
+  intro l
+  induction l with
+  | nil => intro s pr ns h _ _; exact ⟨h, rfl, rfl, rfl⟩
+  | cons t ts ih =>
+    intro s pr ns h hp he
+    simp only [graftLoop]
+    obtain ⟨h1, h2, h3, h4⟩ := graftTopic_spec s now bz p t U h (hp t (by simp)) he
+    have hp' : ∀ t' ∈ ts, PeerOK (graftTopic s now bz p t).1 t' p := by
+      intro t' ht'
+      obtain ⟨pd, hpd, hg, htt⟩ := hp t' (by simp [ht'])
+      exact ⟨pd, by rw [h2]; exact hpd, hg, htt⟩
+    obtain ⟨i1, i2, i3, i4⟩ := ih _ (insAll pr (graftTopic s now bz p t).2.1) (ns ++ (graftTopic s now bz p t).2.2) h1 hp'
+      (by rw [h3]; exact he)
+    exact ⟨i1, i2.trans h2, i3.trans h3, i4.trans h4⟩
+
+theorem sameCore_pruneAll (now p secs : Nat) : ∀ (l : List Nat) (s : State), SameCore s (pruneAll now p secs l s) := by
+  intro l
+  induction l with
+  | nil => intro s; exact SameCore.refl s
+  | cons t ts ih =>
+    intro s
+    simp only [pruneAll]
+    exact (sameCore_updateBackoff s now t p secs).trans (ih _)
+
+theorem inv_recvGraft (s : State) (now : Nat) (sc : Nat → Int) (p : Nat) (ts : List Nat) (h : Inv s) :
+    Inv (recvGraftG fixed s now sc p ts).1 := by
+  unfold recvGraftG
+  cases hp : s.peers p with
+  | none => exact h
+  | some pd =>
+    simp only [fixed, Bool.true_and]
+    split
+    · exact h
+    · rename_i hg
+      have hg' : pd.gossip = true := by simpa using hg
+      have h1 : Inv (setTopics s p (fun cur => insAll cur ts)) :=
+        inv_setTopics_grow s p _ (fun l t ht => mem_insAll.2 (Or.inl ht)) h
+      split
+      · exact h1
+      · rename_i hex
+        have hex' : p ∉ (setTopics s p (fun cur => insAll cur ts)).explicit := by simpa using hex
+        have hpk : ∀ t ∈ ts, PeerOK (setTopics s p (fun cur => insAll cur ts)) t p := by
+          intro t ht
+          refine ⟨{ pd with topics := insAll pd.topics ts }, ?_, hg', mem_insAll.2 (Or.inr ht)⟩
+          simp [setTopics, hp, setF_same]
+        obtain ⟨g1, g2, g3, g4⟩ := graftLoop_spec now (decide (sc p < 0)) p [] ts _ [] []
+          ((meshOK_iff_x _ p).1 h1.mesh) hpk hex'
+        apply Inv.core _ (sameCore_pruneAll now p s.cfg.pruneBackoff _ _)
+        constructor
+        · exact (meshOK_iff_x _ p).2 g1
+        · intro t f hf q hq
+          rw [g4] at hf
+          obtain ⟨pd', hpd', hgq, htq⟩ := h1.fan t f hf q hq
+          exact ⟨pd', by rw [g2]; exact hpd', hgq, htq⟩
+
+/-! ## subscriptions received -/
+
+theorem subscribeArm_spec (s : State) (sc : Nat → Int) (p t : Nat) (U : List Nat)
+    (hm : MeshOKx s p U) (hf : FanOKx s p U) :
+    MeshOKx (subscribeArm s sc p t).1 p U ∧ FanOKx (subscribeArm s sc p t).1 p U := by
+  have hs := setTopics_mesh s p (fun ts => ins ts t)
+  have hm1 : MeshOKx (setTopics s p (fun ts => ins ts t)) p U :=
+    MeshOKx_peerChange hm hs.1 hs.2.1
+      (fun t' q hq => Or.inr (peerOK_setTopics hq (fun _ l hl => mem_ins.2 (Or.inl hl)))) (fun _ h => h)
+  have hf1 : FanOKx (setTopics s p (fun ts => ins ts t)) p U :=
+    FanOKx_peerChange hf hs.2.2
+      (fun t' q hq => Or.inr (peerOK_setTopics hq (fun _ l hl => mem_ins.2 (Or.inl hl)))) (fun _ h => h)
+  unfold subscribeArm
+  simp only
+  cases hp : (setTopics s p (fun ts => ins ts t)).peers p with
+  | none => exact ⟨hm1, hf1⟩
+  | some pd =>
+    simp only
+    split
+    · rename_i hc
+      simp only [Bool.and_eq_true, Bool.not_eq_eq_eq_not, Bool.not_true, List.contains_eq_mem,
+        decide_eq_false_iff_not] at hc
+      cases hmt : (setTopics s p (fun ts => ins ts t)).mesh t with
+      | none => exact ⟨hm1, hf1⟩
+      | some m =>
+        simp only
+        split
+        · refine ⟨MeshOKx_add hm1 ⟨pd, hp, hc.1.1.2, ?_⟩ hc.1.1.1 hmt, hf1⟩
+          -- `t` was just inserted into the peer's topics
+          have : ∃ pd0, s.peers p = some pd0 := by
+            cases h0 : s.peers p with
+            | none => simp [setTopics, h0] at hp
+            | some pd0 => exact ⟨pd0, rfl⟩
+          obtain ⟨pd0, h0⟩ := this
+          simp only [setTopics, h0, setF_same, Option.some.injEq] at hp
+          subst hp
+          exact mem_ins.2 (Or.inr rfl)
+        · exact ⟨hm1, hf1⟩
+    · exact ⟨hm1, hf1⟩
+
+theorem subsLoop_spec (sc : Nat → Int) (p : Nat) :
+    ∀ (l : List (Bool × Nat)) (s : State) (g u : List Nat), MeshOKx s p u → FanOKx s p u →
+      MeshOKx (subsLoop sc p l s g u).1 p (subsLoop sc p l s g u).2.2
+      ∧ FanOKx (subsLoop sc p l s g u).1 p (subsLoop sc p l s g u).2.2 := by
+  intro l
+  induction l with
+  | nil => intro s g u hm hf; exact ⟨hm, hf⟩
+  | cons e es ih =>
+    intro s g u hm hf
+    obtain ⟨a, t⟩ := e
+    cases a with
+    | true =>
+      simp only [subsLoop]
+      obtain ⟨h1, h2⟩ := subscribeArm_spec s sc p t u hm hf
+      exact ih _ _ _ h1 h2
+    | false =>
+      simp only [subsLoop]
+      have hs := setTopics_mesh s p (fun ts => del ts t)
+      have key : ∀ t' q, PeerOK s t' q → (q = p ∧ t' ∈ u ++ [t]) ∨ PeerOK (setTopics s p (fun ts => del ts t)) t' q := by
+        intro t' q hq
+        by_cases hqt : q = p ∧ t' = t
+        · exact Or.inl ⟨hqt.1, by simp [hqt.2]⟩
+        · right
+          apply peerOK_setTopics hq
+          intro hqp l hl
+          exact mem_del.2 ⟨hl, fun h => hqt ⟨hqp, h⟩⟩
+      exact ih _ _ _ (MeshOKx_peerChange hm hs.1 hs.2.1 key (fun _ h => by simp [h]))
+        (FanOKx_peerChange hf hs.2.2 key (fun _ h => by simp [h]))
+
+theorem unsubLoop_spec (now p : Nat) :
+    ∀ (l : List Nat) (s : State) (ns : List Notif), MeshOKx s p l → FanOKx s p l →
+      MeshOKx (unsubLoop now p l s ns).1 p [] ∧ FanOKx (unsubLoop now p l s ns).1 p [] := by
+  intro l
+  induction l with
+  | nil => intro s ns hm hf; exact ⟨hm, hf⟩
+  | cons t ts ih =>
+    intro s ns hm hf
+    simp only [unsubLoop]
+    -- fanout first
+    let s1 : State := { s with fanout := setF s.fanout t ((s.fanout t).map (fun m => del m p)) }
+    have hm1 : MeshOKx s1 p (t :: ts) := hm
+    obtain ⟨c1, c2, c3, _, c5⟩ := removePeerFromMesh_core s1 now p t none false
+    have hm2 := MeshOKx_remove hm1 c1 c2 c5
+    have hf2 : FanOKx (removePeerFromMesh s1 now p t none false).1 p ts := by
+      intro t' f hft q hq
+      rw [c3] at hft
+      simp only [s1] at hft
+      by_cases ht : t' = t
+      · subst ht
+        rw [setF_same] at hft
+        cases hf0 : s.fanout t' with
+        | none => simp [hf0] at hft
+        | some f0 =>
+          simp only [hf0, Option.map_some, Option.some.injEq] at hft
+          subst hft
+          obtain ⟨hq0, hne⟩ := mem_del.1 hq
+          rcases hf t' f0 hf0 q hq0 with ⟨hqp, _⟩ | ⟨pd, hpd, hg, htt⟩
+          · exact absurd hqp hne
+          · exact Or.inr ⟨pd, by rw [c1]; exact hpd, hg, htt⟩
+      · rw [setF_other _ _ _ _ ht] at hft
+        rcases hf t' f hft q hq with ⟨hqp, hU⟩ | ⟨pd, hpd, hg, htt⟩
+        · simp only [List.mem_cons] at hU
+          rcases hU with hU | hU
+          · exact absurd hU ht
+          · exact Or.inl ⟨hqp, hU⟩
+        · exact Or.inr ⟨pd, by rw [c1]; exact hpd, hg, htt⟩
+    exact ih _ _ hm2 hf2
+
+theorem inv_recvSubs (s : State) (now : Nat) (sc : Nat → Int) (p : Nat) (subs : List (Bool × Nat)) (h : Inv s) :
+    Inv (recvSubs s now sc p subs).1 := by
+  unfold recvSubs
+  cases hp : s.peers p with
+  | none => exact h
+  | some pd =>
+    simp only
+    obtain ⟨h1, h2⟩ := subsLoop_spec sc p (filterSubs [] subs) s [] [] ((meshOK_iff_x s p).1 h.mesh) ((fanOK_iff_x s p).1 h.fan)
+    obtain ⟨h3, h4⟩ := unsubLoop_spec now p _ _ [] h1 h2
+    apply Inv.core _ (sameCore_notify _ _)
+    exact ⟨(meshOK_iff_x _ p).2 h3, (fanOK_iff_x _ p).2 h4⟩
+
+
+/-! ## subscribe (`join`) -/
+
+theorem inv_join_state (s : State) (t : Nat) (added : List Nat) (h : Inv s)
+    (hadd : ∀ q ∈ added, PeerOK s t q ∧ q ∉ s.explicit) :
+    Inv { s with fanout := setF s.fanout t none, mesh := setF s.mesh t (some added) } := by
+  constructor
+  · intro t' m hm q hq
+    simp only at hm
+    by_cases ht : t' = t
+    · subst ht
+      rw [setF_same] at hm
+      cases hm
+      exact hadd q hq
+    · rw [setF_other _ _ _ _ ht] at hm
+      exact h.mesh t' m hm q hq
+  · intro t' f hf q hq
+    simp only at hf
+    by_cases ht : t' = t
+    · subst ht
+      simp [setF_same] at hf
+    · rw [setF_other _ _ _ _ ht] at hf
+      exact h.fan t' f hf q hq
+
+theorem fromFan_ok (f : List Nat) (okf : Nat → Bool) (n : Nat) :
+    ∀ q ∈ ((sortNat f).filter okf).take n, q ∈ f ∧ okf q = true := by
+  intro q hq
+  have := List.mem_filter.1 (List.mem_of_mem_take hq)
+  exact ⟨List.mem_mergeSort.1 this.1, this.2⟩
+
+theorem joinOk_notExplicit {s : State} {sc : Nat → Int} {t q : Nat} (h : joinOk s sc t q = true) : q ∉ s.explicit := by
+  simp only [joinOk, Bool.and_eq_true, Bool.not_eq_eq_eq_not, Bool.not_true, List.contains_eq_mem,
+    decide_eq_false_iff_not] at h
+  exact h.1.1
+
+theorem joinFromFan_ok (s : State) (sc : Nat → Int) (t : Nat) (h : Inv s) :
+    ∀ q ∈ joinFromFan s sc t, PeerOK s t q ∧ q ∉ s.explicit := by
+  intro q hq
+  unfold joinFromFan at hq
+  cases hf : s.fanout t with
+  | none => simp [hf] at hq
+  | some f =>
+    simp only [hf] at hq
+    obtain ⟨h1, h2⟩ := fromFan_ok f _ _ q hq
+    exact ⟨h.fan t f hf q h1, joinOk_notExplicit h2⟩
+
+theorem inv_subscribe (s : State) (sc : Nat → Int) (t : Nat) (final : List Nat) (h : Inv s) :
+    Inv (subscribe s sc t final).1 := by
+  unfold subscribe
+  cases hm : s.mesh t with
+  | some m => exact h
+  | none =>
+    simp only
+    have hfan := joinFromFan_ok s sc t h
+    split
+    · split
+      · rename_i hv
+        apply Inv.core _ (sameCore_notify _ _)
+        apply inv_join_state s t _ h
+        intro q hq
+        rcases List.mem_append.1 hq with hq | hq
+        · exact hfan q hq
+        · have hq' := validChoice_sub hv q hq
+          obtain ⟨pd, hpd, ht, hg, hok⟩ := mem_poolOf hq'
+          simp only [Bool.and_eq_true] at hok
+          exact ⟨⟨pd, hpd, hg, ht⟩, joinOk_notExplicit hok.2⟩
+      · exact h
+    · apply Inv.core _ (sameCore_notify _ _)
+      exact inv_join_state s t _ h hfan
+
+
+/-! ## heartbeat -/
+
+theorem stepOk_sub {c : Bool} {ch pool : List Nat} {n : Nat} (h : stepOk c ch pool n = true) : ∀ q ∈ ch, q ∈ pool := by
+  unfold stepOk at h
+  cases c with
+  | true => simp only [↓reduceIte] at h; exact validChoice_sub h
+  | false =>
+    simp only [Bool.false_eq_true, ↓reduceIte, List.isEmpty_iff] at h
+    subst h
+    intro q hq; simp at hq
+
+/-- the eligibility shared by all heartbeat pools -/
+theorem hbOk_ok {s : State} {t q : Nat} {cur : List Nat} {f : Nat → Peer → Bool}
+    (hf : ∀ p pd, f p pd = true → hbOk s t cur p = true) (h : q ∈ poolOf s t f) :
+    (PeerOK s t q ∧ q ∉ s.explicit) ∧ backedOffSlack s t q = false ∧ q ∉ cur := by
+  obtain ⟨pd, hpd, ht, hg, hfq⟩ := mem_poolOf h
+  have := hf q pd hfq
+  simp only [hbOk, Bool.and_eq_true, Bool.not_eq_eq_eq_not, Bool.not_true, List.contains_eq_mem,
+    decide_eq_false_iff_not] at this
+  exact ⟨⟨⟨pd, hpd, hg, ht⟩, this.1.2⟩, this.2, this.1.1⟩
+
+theorem pool1_ok {s : State} {sc : Nat → Int} {t q : Nat} {cur : List Nat} (h : q ∈ pool1 s sc t cur) :
+    (PeerOK s t q ∧ q ∉ s.explicit) ∧ backedOffSlack s t q = false ∧ q ∉ cur ∧ 0 ≤ sc q := by
+  have h1 := hbOk_ok (cur := cur) (fun p pd hp => by simp only [Bool.and_eq_true] at hp; exact hp.1) h
+  obtain ⟨pd, _, _, _, hfq⟩ := mem_poolOf h
+  simp only [Bool.and_eq_true, decide_eq_true_eq] at hfq
+  exact ⟨h1.1, h1.2.1, h1.2.2, hfq.2⟩
+
+theorem pool2_ok {s : State} {sc : Nat → Int} {t q : Nat} {cur : List Nat} (h : q ∈ pool2 s sc t cur) :
+    (PeerOK s t q ∧ q ∉ s.explicit) ∧ backedOffSlack s t q = false ∧ q ∉ cur ∧ 0 ≤ sc q := by
+  have h1 := hbOk_ok (cur := cur) (fun p pd hp => by simp only [Bool.and_eq_true] at hp; exact hp.1.1) h
+  obtain ⟨pd, _, _, _, hfq⟩ := mem_poolOf h
+  simp only [Bool.and_eq_true, decide_eq_true_eq] at hfq
+  exact ⟨h1.1, h1.2.1, h1.2.2, hfq.1.2⟩
+
+theorem pool3_ok {s : State} {sc : Nat → Int} {t q : Nat} {cur : List Nat} (h : q ∈ pool3 s sc t cur) :
+    (PeerOK s t q ∧ q ∉ s.explicit) ∧ backedOffSlack s t q = false ∧ q ∉ cur ∧ median2 sc cur < 2 * sc q := by
+  have h1 := hbOk_ok (cur := cur) (fun p pd hp => by simp only [Bool.and_eq_true] at hp; exact hp.1) h
+  obtain ⟨pd, _, _, _, hfq⟩ := mem_poolOf h
+  simp only [Bool.and_eq_true, decide_eq_true_eq] at hfq
+  exact ⟨h1.1, h1.2.1, h1.2.2, hfq.2⟩
+
+/-- what `hbTry` accepted: the four step verdicts, with the intermediate meshes -/
+theorem hbTry_some {s : State} {sc : Nat → Int} {t : Nat} {m removed : List Nat} {a : List Nat × List Nat × List Nat}
+    {r : HbTopic} (h : hbTry s sc t m removed a = some r) :
+    let m0 := m.filter (fun p => !(decide (sc p < 0)))
+    let m1 := m0 ++ a.1
+    let m2 := m1.filter (fun p => !removed.contains p)
+    let m3 := m2 ++ a.2.1
+    stepOk (decide (m0.length < s.cfg.meshLow)) a.1 (pool1 s sc t m0) (s.cfg.meshN - m0.length) = true
+    ∧ stepOk (decide (m2.length ≥ s.cfg.meshLow) && decide (outboundCount s m2 < s.cfg.outMin)) a.2.1
+        (pool2 s sc t m2) (s.cfg.outMin - outboundCount s m2) = true
+    ∧ stepOk (oppCond s sc m3) a.2.2 (pool3 s sc t m3) s.cfg.oppPeers = true
+    ∧ r.mesh = m3 ++ a.2.2 ∧ r.graft = a.1 ++ a.2.1 ++ a.2.2
+    ∧ r.prune = m.filter (fun p => decide (sc p < 0)) ++ removed := by
+  unfold hbTry at h
+  split at h
+  · rename_i hok
+    simp only [Bool.and_eq_true] at hok
+    simp only [Option.some.injEq] at h
+    subst h
+    exact ⟨hok.1.1.1, hok.1.2, hok.2, rfl, rfl, rfl⟩
+  · cases h
+
+/-- every member of the maintained mesh was a member before or is an eligible peer -/
+theorem hbTry_mem {s : State} {sc : Nat → Int} {t : Nat} {m removed : List Nat} {a : List Nat × List Nat × List Nat}
+    {r : HbTopic} (h : hbTry s sc t m removed a = some r) :
+    ∀ q ∈ r.mesh, q ∈ m ∨ (PeerOK s t q ∧ q ∉ s.explicit) := by
+  obtain ⟨h1, h2, h3, hm, _, _⟩ := hbTry_some h
+  intro q hq
+  rw [hm] at hq
+  rcases List.mem_append.1 hq with hq | hq
+  · rcases List.mem_append.1 hq with hq | hq
+    · have hq1 := (List.mem_filter.1 hq).1
+      rcases List.mem_append.1 hq1 with hq0 | hq0
+      · exact Or.inl (List.mem_filter.1 hq0).1
+      · exact Or.inr (pool1_ok (stepOk_sub h1 q hq0)).1
+    · exact Or.inr (pool2_ok (stepOk_sub h2 q hq)).1
+  · exact Or.inr (pool3_ok (stepOk_sub h3 q hq)).1
+
+theorem hbTopic_mem {s : State} {sc : Nat → Int} {t : Nat} {m final : List Nat} {r : HbTopic}
+    (h : hbTopic s sc t m final = some r) : ∀ q ∈ r.mesh, q ∈ m ∨ (PeerOK s t q ∧ q ∉ s.explicit) := by
+  unfold hbTopic at h
+  obtain ⟨a, _, ha⟩ := List.exists_of_findSome?_eq_some h
+  exact hbTry_mem ha
+
+theorem hbMeshLoop_ok (s : State) (sc : Nat → Int) (final : Nat → List Nat) (hs : MeshOK s) :
+    ∀ (ts : List Nat) (mesh : Nat → Option (List Nat)) (g pr : List (Nat × Nat))
+      (res : (Nat → Option (List Nat)) × List (Nat × Nat) × List (Nat × Nat)),
+      (∀ t m, mesh t = some m → ∀ q ∈ m, PeerOK s t q ∧ q ∉ s.explicit) →
+      hbMeshLoop s sc final ts mesh g pr = some res →
+      ∀ t m, res.1 t = some m → ∀ q ∈ m, PeerOK s t q ∧ q ∉ s.explicit := by
+  intro ts
+  induction ts with
+  | nil =>
+    intro mesh g pr res hmesh h
+    simp only [hbMeshLoop, Option.some.injEq] at h
+    subst h
+    exact hmesh
+  | cons t ts ih =>
+    intro mesh g pr res hmesh h
+    simp only [hbMeshLoop] at h
+    cases hm : s.mesh t with
+    | none =>
+      simp only [hm] at h
+      exact ih mesh g pr res hmesh h
+    | some m =>
+      simp only [hm] at h
+      cases hr : hbTopic s sc t m (final t) with
+      | none => simp [hr] at h
+      | some r =>
+        simp only [hr] at h
+        apply ih _ _ _ res _ h
+        intro t' m' hm' q hq
+        by_cases ht : t' = t
+        · subst ht
+          rw [setF_same] at hm'
+          cases hm'
+          rcases hbTopic_mem hr q hq with h' | h'
+          · exact hs t' m hm q h'
+          · exact h'
+        · rw [setF_other _ _ _ _ ht] at hm'
+          exact hmesh t' m' hm' q hq
+
+theorem sameCore_sendGrafts (fx : Fixes) (tg : List (Nat × Nat)) : ∀ (l : List Nat) (s : State) (ns : List Notif),
+    SameCore s (sendGrafts fx tg l s ns).1 := by
+  intro l
+  induction l with
+  | nil => intro s ns; exact SameCore.refl s
+  | cons p ps ih =>
+    intro s ns
+    simp only [sendGrafts]
+    split
+    · exact ih _ _
+    · exact (sameCore_notify _ _).trans (ih _ _)
+
+theorem sameCore_sendPrunes (tg : List (Nat × Nat)) : ∀ (l : List (Nat × Nat)) (s : State) (ns : List Notif),
+    SameCore s (sendPrunes tg l s ns).1 := by
+  intro l
+  induction l with
+  | nil => intro s ns; exact SameCore.refl s
+  | cons e es ih =>
+    intro s ns
+    obtain ⟨p, t⟩ := e
+    simp only [sendPrunes]
+    split
+    · exact (sameCore_notify _ _).trans (ih _ _)
+    · exact ih _ _
+
+theorem sameCore_pruneBackoffs (now secs : Nat) : ∀ (l : List (Nat × Nat)) (s : State),
+    SameCore s (pruneBackoffs now secs l s) := by
+  intro l
+  induction l with
+  | nil => intro s; exact SameCore.refl s
+  | cons e es ih =>
+    intro s
+    obtain ⟨p, t⟩ := e
+    simp only [pruneBackoffs]
+    exact (sameCore_updateBackoff s now t p secs).trans (ih _)
+
+theorem hbFanout_ok (s : State) (new : Nat → Option (List Nat)) (fan : Nat → Option (List Nat))
+    (hs : FanOK s) (h : hbFanout s new = some fan) : ∀ t f, fan t = some f → ∀ q ∈ f, PeerOK s t q := by
+  unfold hbFanout at h
+  split at h
+  · rename_i hall
+    simp only [Option.some.injEq] at h
+    subst h
+    intro t f hf q hq
+    simp only at hf
+    split at hf
+    · rename_i ht
+      have hv := List.all_eq_true.1 hall t (by simpa using ht)
+      rw [hf] at hv
+      exact validFan_ok hv (fun f0 hf0 => hs t f0 hf0) q hq
+    · exact hs t f hf q hq
+  · cases h
+
+theorem inv_heartbeat (fx : Fixes) (s : State) (now : Nat) (sc : Nat → Int) (final : Nat → List Nat)
+    (fan : Nat → Option (List Nat)) (h : Inv s) : Inv (heartbeatG fx s now sc final fan).1 := by
+  unfold heartbeatG
+  simp only
+  -- the state the loops read: only ticks / backoff differ from `s`
+  have hs0 : Inv { s with ticks := s.ticks + 1, backoff := (C32.heartbeat s.backoff now).getD s.backoff } :=
+    h.core ⟨rfl, rfl, rfl, rfl, rfl⟩
+  split
+  · rename_i mesh toGraft toPrune fanout hloop hfan
+    apply Inv.core _ (sameCore_pruneBackoffs now s.cfg.pruneBackoff toPrune _)
+    apply Inv.core _ (sameCore_sendPrunes toGraft toPrune _ _)
+    apply Inv.core _ (sameCore_sendGrafts fx toGraft peerUniverse _ _)
+    constructor
+    · intro t m hm q hq
+      exact hbMeshLoop_ok _ sc final hs0.mesh topicUniverse _ [] [] _ (fun t m hm q hq => hs0.mesh t m hm q hq) hloop t m hm q hq
+    · intro t f hf q hq
+      exact hbFanout_ok _ fan fanout hs0.fan hfan t f hf q hq
+  · exact h
+
+/-! ## every op -/
+
+/-- the op's side condition: only a peer that is in no mesh is made explicit (DESIGN §8: making a
+current mesh member explicit is outside the property's quantifier) -/
+def okOp (s : State) (o : TOp) : Prop :=
+  match o.op with
+  | .explicit p => ¬ InMeshP s p
+  | _ => True
+
+theorem inv_step (s : State) (o : TOp) (h : Inv s) (hok : okOp s o) : Inv (step s o).1 := by
+  unfold step stepG
+  cases hop : o.op with
+  | connect p c ob => exact inv_connect s p c ob h
+  | kind p g => exact inv_setKind s p g h
+  | disconnect p c => exact inv_disconnect s p c h
+  | explicit p =>
+    simp only [okOp, hop] at hok
+    exact inv_addExplicit s p h hok
+  | subs p l => exact inv_recvSubs s o.now o.sc p l h
+  | graft p ts => exact inv_recvGraft s o.now o.sc p ts h
+  | prune p l => exact inv_recvPrune s o.now p l h
+  | subscribe t final => exact inv_subscribe s o.sc t final h
+  | unsubscribe t => exact inv_unsubscribe s o.now t h
+  | publish t fan => exact inv_publish s t fan h
+  | heartbeat final fan => exact inv_heartbeat fixed s o.now o.sc final fan h
+  | nop => exact h
+
+theorem inv_init (c : Cfg) (hb slack : Nat) : Inv (init c hb slack) := by
+  constructor
+  · intro t m hm; simp [init] at hm
+  · intro t f hf; simp [init] at hf
+
+/-- run an op sequence, requiring the side condition at every step -/
+def OkRun : State → List TOp → Prop
+  | _, [] => True
+  | s, o :: os => okOp s o ∧ OkRun (step s o).1 os
+
+def exec (s : State) (ops : List TOp) : State := ops.foldl (fun s o => (step s o).1) s
+
+theorem inv_exec : ∀ (ops : List TOp) (s : State), Inv s → OkRun s ops → Inv (exec s ops) := by
+  intro ops
+  induction ops with
+  | nil => intro s h _; exact h
+  | cons o os ih =>
+    intro s h hok
+    simp only [exec, List.foldl_cons]
+    exact ih _ (inv_step s o h hok.1) hok.2
+
 end C28
